@@ -14,6 +14,8 @@ drop any op):
   mf:R:NAME  mb:R:NAME        MoveNameToFront / MoveNameToBack;   cn:R:OLD:NEW  CopyName(old, same Message, new)
   u:R                         R = UnflattenFromBytes(Flatten(R))   (continue operating on a parsed Message)
   um:R:SEED                   R = UnflattenFromBytes(mutate(Flatten(R), SEED)) if that parses (head `g` only: malformed stream)
+  ct:R:S                      R = CreateMessageTemplate(S);   tm:SEED  also parse mutated templated bytes (head `t` only:
+                              at the end register 0 is TemplatedFlatten'ed against the template in register 1 and parsed back)
 Observed on register 0 (and 1 for the equality pair) after the script.
 """
 import struct
@@ -240,6 +242,23 @@ class CHECK(vlib.Check):
             if rng.random() < 0.3:
                 tail += ["um:0:%d" % rng.randrange(2 ** 31)]
             out.append(("mutated-bytes", "g|" + ";".join(ops + tail)))
+        # templated stream (head `t`): payload in register 0, template = CreateMessageTemplate of it (or of a variant with
+        # other values) in register 1; half of the cases also parse deterministically mutated templated bytes (tm:SEED)
+        for i in range(n // 6):
+            body = gen_script(rng, rng.choice([2, 4, 6, 9, 12]), "m", 4).split("|", 1)[1]
+            ops = [o for o in body.split(";") if o and not o.startswith("cp:1:0") and not o.startswith("u:1")]
+            r = rng.random()
+            if r < 0.6:
+                tail = ["ct:1:0"]
+            elif r < 0.85:      # same shape, different values: the template comes from a copy with replaced items
+                nm, t = rng.choice(NAMES[:6]), rng.choice(["i", "s", "b", "d"])
+                tail = ["cp:2:0", "r:2:%s:0:%s:%s:0" % (hx(nm), t, val(rng, t)), "ct:1:2"]
+            else:               # usually NOT the same shape: an unrelated or modified Message's template
+                nm, t = rng.choice(NAMES[:6]), rtype(rng)
+                tail = ["cp:2:0", rng.choice(["a:2:%s:%s:%s" % (hx(nm), t, val(rng, t)), "x:2:%s:0" % hx(nm), "xn:2:%s" % hx(nm)]), "ct:1:2"]
+            if rng.random() < 0.5:
+                tail.append("tm:%d" % rng.randrange(2 ** 31))
+            out.append(("templated", "t|" + ";".join(ops + tail)))
         return out
 
     def nontrivial(self, case):
